@@ -603,7 +603,7 @@ pub fn run(out: &mut Out, tier: &str, seed: u64, prop: &str) {
             // grammar reading excludes (C18): rejected by design (F20), not a derivation
             let ambiguous = d.marker.is_some() && d.url.as_ref().is_some_and(|u| {
                 apply_env(&vars);
-                let e = pep508_rs::expand_env_vars(u).to_string();
+                let e = expand_spec(u, &vars);
                 let t = e.trim_end_matches(|c: char| c <= ' ');
                 t.ends_with(';') || t.ends_with('#')
             });
@@ -626,7 +626,8 @@ pub fn run(out: &mut Out, tier: &str, seed: u64, prop: &str) {
             } else if let Some(u) = &d.url {
                 std::env::remove_var("VP_UNSET");
                 apply_env(&vars);
-                let expanded = pep508_rs::expand_env_vars(u).to_string();
+                // (expanded by the harness's own reading of `${NAME}`, not by the crate's `expand_env_vars`)
+                let expanded = expand_spec(u, &vars);
                 format!("url:{}:{}", hex(u), hex(&url::Url::parse(&expanded).map(|x| x.to_string()).unwrap_or_default()))
             } else { "none".into() };
             let marker = match &d.marker { Some(t) => dump(&t.build()), None => "T".into() };
@@ -971,6 +972,14 @@ pub fn run(out: &mut Out, tier: &str, seed: u64, prop: &str) {
                 rc.envs.push(vars.clone());
                 out.impl_out.push(format!("scheme={sch} extras={ext} strip={}", strip_host_hex(&text)));
             }
+        }
+        // the public text helpers on texts that are not requirements: what may start / continue a scheme, where `:` must be,
+        // bracket groups that are not at the end, hosts that only resemble `localhost`
+        for t in ["1a:b", "+a:b", "-a:b", ".a:b", "a1+-.:b", "a:", ":b", ":", "a", "", "a b:c", "a_b:c", "é:b", "aé:b", "a:b:c", "A:b", " a:b ", "\u{1}a:b\u{1f}", "a\u{a0}:b", "ａ:b",
+                  "x[a]", "x[a]y", "x[a][b]", "x]", "x[", "[a]", "x[a]]", "x[[a]", "x[a] ", "[]", "x[]", "é[ü]", "x[a]\u{a0}",
+                  "//localhost", "//localhost/", "//localhostx/y", "//LOCALHOST/p", "/localhost/p", "///p", "//", "/", "//h/p", "//localhost//p", "//localhosté/p"] {
+            url_helpers_case(out, &mut rc, t, &vars);
+            out.stat("c19.helper_only_texts");
         }
     }
     // ---- the unnamed parser (extension feature) on targeted and hostile texts: implementation vs model -------
